@@ -53,6 +53,9 @@ struct Mock {
     next_id: u64,
     /// per client: true = answer the next list request with a 500
     list_plan: [VecDeque<bool>; 2],
+    /// changes that happen at the moment the adapter's (client 0) next list request is answered with a 500:
+    /// a paginated re-list aborted half way, after which the world has moved on
+    late: Vec<Change>,
     /// page size of list answers (0 = everything in one page)
     page: usize,
     tokens: BTreeMap<String, (Vec<Value>, u64)>,
@@ -113,6 +116,7 @@ impl Mock {
         self.lists[client] += 1;
         if self.list_plan[client].pop_front() == Some(true) {
             self.list_failures[client] += 1;
+            if client == 0 { let late: Vec<Change> = self.late.drain(..).collect(); for c in &late { self.apply(c, false); } }
             return (500, json!({"kind": "Status", "apiVersion": "v1", "metadata": {}, "status": "Failure",
                 "message": "injected failure", "reason": "InternalError", "code": 500}).to_string());
         }
@@ -237,7 +241,7 @@ enum Step {
     Drop { clean: bool, missed: Vec<Change>, compact: bool },
     /// 410 Gone on the live watch after `missed` changes; the next `fails` list requests of each
     /// client fail with 500; list answers come in pages of `page` items (0 = one page)
-    Gone { missed: Vec<Change>, fails: u32, page: usize },
+    Gone { missed: Vec<Change>, fails: u32, page: usize, abort_mid: bool },
 }
 struct Scenario {
     family: &'static str,
@@ -385,8 +389,9 @@ fn gen_scenario(r: &mut Rng, family: &'static str) -> Scenario {
         } else if matches!(family, "GONE" | "MIX") && roll <= 8 && breaks < 3 {
             breaks += 1;
             if r.chance(1, 2) {
+                if r.chance(1, 4) { Step::Gone { missed: w.gen_missed(r, &m), fails: 1, page: 1, abort_mid: true } } else {
                 Step::Gone { missed: w.gen_missed(r, &m), fails: if r.chance(1, 4) { 1 + r.below(2) as u32 } else { 0 },
-                             page: if r.chance(1, 3) { 1 + r.below(2) as usize } else { 0 } }
+                             page: if r.chance(1, 3) { 1 + r.below(2) as usize } else { 0 }, abort_mid: false } }
             } else {
                 Step::Drop { clean: r.chance(1, 2), missed: w.gen_missed(r, &m), compact: true }
             }
@@ -531,11 +536,20 @@ async fn run_case(sc: &Scenario, tot: &mut Totals) -> String {
                     for l in m.live.drain(..) { let _ = l.tx.send(if *clean { Cmd::EndClean } else { Cmd::Abort }); }
                     vec![format!("HDrop {} {} {}", g_bool(*clean), g_list(&missed.iter().map(g_change).collect::<Vec<_>>()), g_bool(*compact))]
                 }
-                Step::Gone { missed, fails, page } => {
+                Step::Gone { missed, fails, page, abort_mid } => {
+                    if *abort_mid && *page > 0 && m.store.len() > *page {
+                        // the first page of the re-list is served from the OLD world, the continuation fails,
+                        // and only then do the missed changes happen; the next attempt sees the new world
+                        m.late = missed.clone();
+                        m.compact();
+                        m.page = *page;
+                        for c in 0..2 { m.list_plan[c] = [false, true].into_iter().collect(); }
+                    } else {
                     for c in missed { m.apply(c, false); }
                     m.compact();
                     m.page = *page;
                     for c in 0..2 { m.list_plan[c] = (0..*fails).map(|_| true).collect(); }
+                    }
                     let line = gone_line();
                     for l in m.live.drain(..) { let _ = l.tx.send(Cmd::Line(line.clone())); }
                     vec![format!("HGone {} {} {}", g_list(&missed.iter().map(g_change).collect::<Vec<_>>()), fails, page)]
@@ -595,8 +609,10 @@ fn fixed_scenarios() -> Vec<Scenario> {
         // a label / annotation called "state"
         Scenario { family: "STATEKEY", initial: vec![], steps: vec![Step::Ch(Change::Set(masked)), Step::Ch(Change::Set(hidden))] },
         // servers that vanished during a watch gap: 410 on the live watch, and on the resumed one
-        Scenario { family: "GONE", initial: vec![a.clone(), b.clone()], steps: vec![Step::Gone { missed: vec![Change::Del("gs-0".into()), Change::Set(c.clone())], fails: 0, page: 0 }] },
-        Scenario { family: "GONE", initial: vec![a.clone(), b.clone(), c.clone()], steps: vec![Step::Drop { clean: true, missed: vec![Change::Del("gs-1".into())], compact: true }, Step::Gone { missed: vec![Change::Del("gs-2".into())], fails: 2, page: 1 }] },
+        Scenario { family: "GONE", initial: vec![a.clone(), b.clone()], steps: vec![Step::Gone { missed: vec![Change::Del("gs-0".into()), Change::Set(c.clone())], fails: 0, page: 0, abort_mid: false }] },
+        Scenario { family: "GONE", initial: vec![a.clone(), b.clone(), c.clone()], steps: vec![Step::Drop { clean: true, missed: vec![Change::Del("gs-1".into())], compact: true }, Step::Gone { missed: vec![Change::Del("gs-2".into())], fails: 2, page: 1, abort_mid: false }] },
+        // a paginated re-list aborted after its first page; a server of that page is gone when the list is retried
+        Scenario { family: "GONE", initial: vec![a.clone(), b.clone(), c.clone()], steps: vec![Step::Gone { missed: vec![Change::Del("gs-0".into())], fails: 1, page: 1, abort_mid: true }] },
         // missed deletion replayed on the resumed watch
         Scenario { family: "DROP", initial: vec![a.clone(), b.clone()], steps: vec![Step::Drop { clean: false, missed: vec![Change::Del("gs-0".into())], compact: false }, Step::Drop { clean: true, missed: vec![], compact: false }] },
     ]
